@@ -746,8 +746,19 @@ func main() {
 	o.b.WriteString("\n/-! Error paths that must give back what they acquired (read off the Go AST). -/\n\n")
 	o.boolean("lkCommitUnlocksOnError", ifBodyHas("leveldb/db_transaction.go", "Transaction.Commit", "cerr != nil", "tr.db.compCommitLk.Unlock()"),
 		"`Transaction.Commit` unlocks `compCommitLk` before returning the commit error")
-	o.boolean("lkOpenTxReleasesOnError", countStmts("leveldb/db_transaction.go", "DB.OpenTransaction", "<-db.writeLockC") >= 2,
-		"`OpenTransaction` takes the write-lock token back on its error returns")
+	o.boolean("lkOpenTxReleasesOnError", func() bool {
+		// after the token has been taken (the select at the top), every `return nil, err` is preceded by `<-db.writeLockC`
+		t := funcText("leveldb/db_transaction.go", "DB.OpenTransaction")
+		i := strings.Index(t, "has open transaction")
+		if i < 0 {
+			return false
+		}
+		rest := t[i:]
+		nret := strings.Count(rest, "return nil, err")
+		return nret >= 2 && nret == countStmts("leveldb/db_transaction.go", "DB.OpenTransaction", "<-db.writeLockC") &&
+			strings.Count(rest, "<-db.writeLockC\n\t\t\treturn nil, err")+strings.Count(rest, "<-db.writeLockC\n\t\treturn nil, err") == nret
+	}(),
+		"`OpenTransaction` takes the write-lock token back on every error return after it acquired it")
 	o.boolean("lkLargeBatchDiscardsOnCommitError", ifBodyHas("leveldb/db_write.go", "DB.Write", "tr.Commit()", "tr.Discard()"),
 		"`DB.Write` discards the internal transaction when its commit fails")
 	o.boolean("roCompactionParks", strings.Count(funcText("leveldb/db_compaction.go", "DB.tCompaction"), "atomic.LoadUint32(&db.compReadOnly)") >= 2 &&
@@ -782,6 +793,13 @@ func main() {
 			[]string{"n.mu.Lock()", "delFuncs := n.delFuncs", "n.delFuncs = nil", "n.mu.Unlock()", "for _, f := range delFuncs {…"}) &&
 			!strings.Contains(funcText("leveldb/cache/cache.go", "mBucket.delete"), "range n.delFuncs"),
 		"`mBucket.delete` takes the delFuncs out of the removed node (`delFuncs := n.delFuncs; n.delFuncs = nil` between `n.mu.Lock()` and `n.mu.Unlock()`) before it calls them, and never ranges over `n.delFuncs` itself")
+
+	o.boolean("cacheClosedUnrefRechecks",
+		ifBodySeq("leveldb/cache/cache.go", "Node.unRefExternal", "n.r.closed", []string{"if atomic.LoadInt32(&n.ref) == 0 {…"}) &&
+			ifBodyHas("leveldb/cache/cache.go", "Node.unRefExternal", "atomic.LoadInt32(&n.ref) == 0", "n.callFinalizer()") &&
+			!ifBodyHas("leveldb/cache/cache.go", "Node.unRefExternal", "n.r.closed", "n.callFinalizer()") &&
+			countStmts("leveldb/cache/cache.go", "Node.unRefExternal", "n.callFinalizer()") == 1,
+		"in the `if n.r.closed` branch of `Node.unRefExternal` the only call of `n.callFinalizer()` is inside `if atomic.LoadInt32(&n.ref) == 0 { … }`")
 
 	// order facts behind the configuration of the interleaving model (Model/Conc.lean, Cfg)
 	o.boolean("ordFlushCommitBeforeDrop", topStmtBefore("leveldb/db_compaction.go", "DB.memCompaction", `db.compactionCommit("memdb", rec)`, "db.dropFrozenMem()"),
